@@ -6,7 +6,7 @@ from ..pool import contract, metadata_problem, carray
 
 ASSUME = [
     'reactant and product states inside the state space, positive integer rates (exactly representable)',
-    'tolerance 1e-10 relative to the largest rate; threshold in {0, 1e-14}',
+    'tolerance 1e-10 relative to the largest rate; threshold in {0, 1e-14, 1e-12}',
     'trusted base: TLC evaluation of spec/Slim.tla (reference generator by state enumeration; the reference itself is checked by TLC to have zero column sums and non-negative off-diagonals), harness projection',
 ]
 RULE = ('TLC enumerates state-space vectors (equal and unequal cell sizes), numbers of single-/two-cell reactions, seeds '
@@ -29,7 +29,7 @@ def replay(case):
         scr_h, tcr_h = [list(r) for r in cfg['scr'][0]], [list(r) for r in cfg['tcr'][0]]
         scr_l = [[list(r) for r in cell] for cell in cfg['scr']]
         tcr_l = [[list(r) for r in bond] for bond in cfg['tcr']]
-        for thr in (0, 1e-14):
+        for thr in (0, 1e-14, 1e-12):
             try:
                 if cfg['hom']:
                     op = slim.slim_mme_hom(ss, scr_h, tcr_h, cyclic=cfg['cyclic'], threshold=thr)
@@ -94,6 +94,10 @@ def runs(tier):
     out.append(dict(name='slim4', module='Slim', invariants=['ColumnSumsZero', 'OffDiagNonNeg', 'UlamTotal'],
                     constants=dict(base, MaxD=4, Sizes={2} if q else {2, 3}, NSingle={1}, NTwo={2}, Seeds={1, 2}, ExhaustiveD2=False,
                                    UlamGrids={(2, 2)}, UlamN={1})))
+    # many reactions per bond: the super-cores reach full rank min(n1^2, n2^2), so that a non-zero threshold removes nothing
+    out.append(dict(name='slimfull', module='Slim', invariants=['ColumnSumsZero', 'OffDiagNonNeg', 'UlamTotal'],
+                    constants=dict(base, MaxD=3, Sizes={2} if q else {2, 3}, NSingle={1}, NTwo={6, 9} if q else {6, 9, 14},
+                                   Seeds={1, 2, 3}, ExhaustiveD2=False, UlamGrids={(2, 2)}, UlamN={1})))
     return out
 
 
